@@ -88,6 +88,13 @@ pub fn alphabet(doc: &Value, size: AlphaSize, max_names: usize, spellings: bool)
         (None, None, Some(-1)),
         (Some(1), Some(0), Some(-1)),
         (Some(-1), Some(-3), Some(-1)),
+        (None, None, Some(-2)),
+        // bounds beyond the array on either side, with steps that do not divide them
+        (Some(-(l + 2)), None, Some(2)),
+        (Some(-(l + 1)), Some(l + 2), Some(3)),
+        (Some(l + 1), None, Some(-2)),
+        (Some(l), Some(-(l + 2)), Some(-1)),
+        (Some(1), Some(-(l + 3)), Some(-2)),
     ] {
         base.push(Sel::Slice(a, b, c));
     }
